@@ -2037,9 +2037,9 @@ func ctoaS[T Complexes](s *PrintCtx, val T) {
 func ctoasimple[T Complexes](s *PrintCtx, val T, format byte, prec, bitSize int) {
 	s.checkerr(s.WriteByte('('))
 	s.buf = strconv.AppendFloat(s.buf, real(complex128(val)), format, prec, bitSize)
-	istart := len(s.buf)
 	s.checkerr(s.WriteByte('+'))
-	ix := len(s.buf)
+	ix := len(s.buf) // taken after the write: growing the buffer drops what a marshaller has read already
+	istart := ix - 1
 	s.buf = strconv.AppendFloat(s.buf, imag(complex128(val)), format, prec, bitSize)
 	if s.buf[ix] == '+' || s.buf[ix] == '-' {
 		end := len(s.buf)
